@@ -14,6 +14,7 @@ SHAPES = {
     "aliasdup": [("id as x", "int"), ("id + 100 as b", "int"), ("id + 200 as x", "int")],
     "quoted": [('id as "My Col"', "int"), ('id + 100 as "a"', "int")],
     "dml": [("<affected count>", "count")],
+    "star0": [("id", "int"), ("name", "int")], "star1": [("id", "int"), ("label", "int"), ("score", "int")],
     "types": [
         ("id", "int"),
         ("'r' || id::varchar as s", "str"),
@@ -122,6 +123,8 @@ def rows_obs(shape: str, rows: list, names: list[str], rc) -> dict:
 
 
 _FS = None
+ALLOPS = {"open", "exec", "dml", "reshape", "execfail", "one", "many", "manydef", "all", "pandas", "asz", "descr"}
+NORESHAPE = ALLOPS - {"reshape"}
 
 
 class C05(Prop):
@@ -138,26 +141,35 @@ class C05(Prop):
                "SetArraysize", "FetchPandasAll", "ReadDescription"]
 
     def consts(self, tier):
-        return {"MaxN": 3, "MaxK": 4, "MaxA": 2, "ShapesUsed": {"three", "dup"}, "ViaUsed": {"x"}}
+        return {"MaxN": 3, "MaxK": 4, "MaxA": 2, "ShapesUsed": {"three", "dup"}, "ViaUsed": {"x"}, "OpsUsed": ALLOPS, "MinN": 0}
 
     def model_checks(self, tier):
         big = tier == "thorough"
         c = {"MaxN": 4 if big else 3, "MaxK": 5 if big else 4, "MaxA": 3 if big else 2,
              "ShapesUsed": {"one", "three", "dup", "aliasdup", "quoted", "types"}, "ViaUsed": {"x", "s1", "s2"}, "Devs": set(),
-             "Depth": 12 if big else 10}
+             "Depth": 12 if big else 10, "OpsUsed": NORESHAPE, "MinN": 0}
         inv = ["StepInv", "ExactlyOnce", "Drained", "NoResult", "Replace"]
         out = [dict(name="mc_ideal", consts=c, invariants=inv, properties=["Monotone"], constraint="Bound",
                     view="ViewSt", coverage=True, actions=self.ACTIONS)]
         cd = dict(c, Devs={"C05.dup_names_tuple_width"}, ShapesUsed={"dup"}, MaxN=2, Depth=4)
         out.append(dict(name="mc_dev_dup", consts=cd, invariants=inv, constraint="Bound", view="ViewSt",
                         devs=["C05.dup_names_tuple_width"], workers=1))
+        cs = dict(c, Devs={"C05.description_follows_current_table"}, ShapesUsed={"star"}, MaxN=1, Depth=5, OpsUsed={"open", "exec", "reshape", "descr"})
+        out.append(dict(name="mc_dev_descr", consts=cs, invariants=inv + ["DescrOfResult"], constraint="Bound", view="ViewSt",
+                        devs=["C05.description_follows_current_table"], workers=1))
         return out
 
     def generations(self, tier, seed):
         big = tier == "thorough"
         all_shapes = {"one", "three", "dup", "aliasdup", "quoted", "types"}
-        base = {"Devs": set(), "ViaUsed": {"x"}}
+        base = {"Devs": set(), "ViaUsed": {"x"}, "OpsUsed": NORESHAPE, "MinN": 0}
         g = [
+            # dense small vocabularies (all sequences): a failing execute between fetches; the same SELECT * text over a table whose
+            # columns change in between, on tuple and dict cursors
+            dict(name="paths_fail", mode="paths",
+                 consts=dict(base, MinN=2, MaxN=2, MaxK=1, MaxA=1, ShapesUsed={"three"}, OpsUsed={"open", "exec", "execfail", "one", "all"}, Depth=8 if big else 7)),
+            dict(name="paths_star", mode="paths",
+                 consts=dict(base, MinN=2, MaxN=2, MaxK=1, MaxA=1, ShapesUsed={"star"}, OpsUsed={"open", "exec", "reshape", "one"}, Depth=9 if big else 8)),
             # every transition of the state graph, one shortest path each
             dict(name="edges", mode="edges", sample=None if big else 5000,
                  consts=dict(base, MaxN=3, MaxK=4, MaxA=2, ShapesUsed=all_shapes if big else {"three", "aliasdup", "types"}, Depth=7,
@@ -169,11 +181,11 @@ class C05(Prop):
                  consts=dict(base, MaxN=2, MaxK=2, MaxA=2, ShapesUsed={"aliasdup"}, Depth=5)),
             # long random walks
             dict(name="walks", mode="walks", depth=14, num=3000 if big else 500,
-                 consts=dict(base, MaxN=4, MaxK=5, MaxA=3, ShapesUsed=all_shapes, Depth=14, ViaUsed={"x", "s1", "s2"})),
+                 consts=dict(base, MaxN=4, MaxK=5, MaxA=3, ShapesUsed=all_shapes | {"star"}, Depth=14, ViaUsed={"x", "s1", "s2"}, OpsUsed=ALLOPS)),
         ]
         if big:
             g.append(dict(name="walks_long", mode="walks", depth=40, num=1500, seed_offset=1,
-                          consts=dict(base, MaxN=6, MaxK=7, MaxA=4, ShapesUsed=all_shapes, Depth=40, ViaUsed={"x", "s1", "s2"})))
+                          consts=dict(base, MaxN=6, MaxK=7, MaxA=4, ShapesUsed=all_shapes | {"star"}, Depth=40, ViaUsed={"x", "s1", "s2"}, OpsUsed=ALLOPS)))
         return g
 
     def nontrivial(self, ops):
@@ -196,6 +208,16 @@ class C05(Prop):
             setup.execute("insert into src values " + ",".join(f"({i})" for i in range(1, 21)))
         conn = _FS.connect("DB1", "S1")
         cur = None
+        lay = [0, False]          # layout of shp, and whether shp has been made for this behaviour
+
+        def make_shp():
+            c2 = conn.cursor()
+            if lay[0] == 0:
+                c2.execute("create or replace table shp as select id, id + 100 as name from src")
+            else:
+                c2.execute("create or replace table shp as select id, id + 100 as label, id + 200 as score from src")
+            lay[1] = True
+
         shape = "one"
         isdict = False
         ev = []
@@ -214,10 +236,20 @@ class C05(Prop):
                     isdict = bool(op["dict"])
                     cur = conn.cursor(DictCursor) if isdict else conn.cursor()
                     obs = plain("ok")
+                elif k == "reshape":
+                    lay[0] = 1 - lay[0]
+                    make_shp()
+                    obs = plain("ok")
                 elif k == "exec":
                     shape = op["sh"]
-                    sel = ", ".join(e for e, _ in SHAPES[shape])
-                    sql = f"select {sel} from src where id <= {int(op['n'])} order by id"
+                    if shape == "star":
+                        if not lay[1]:
+                            make_shp()
+                        shape = f"star{lay[0]}"
+                        sql = f"select * from shp where id <= {int(op['n'])} order by id"      # the same text in both layouts
+                    else:
+                        sel = ", ".join(e for e, _ in SHAPES[shape])
+                        sql = f"select {sel} from src where id <= {int(op['n'])} order by id"
                     via = op.get("via", "x")
                     if via == "x":
                         cur.execute(sql)
